@@ -25,7 +25,7 @@ CLAIMED = {
     "C37": {
         "level": "exploration",
         "technique": "deterministic simulation: virtual-time asyncio loop, seeded interleavings of 2-4 render tasks on one environment + peer cancel/exception faults, differential oracle vs isolated render",
-        "text": "Seeded search over interleavings: 2-4 real asyncio tasks render generated templates on one shared async environment under a simulated event loop whose every ready-queue choice and gate delay (0..3600 virtual seconds) comes from the seed; some runs cancel a peer at its k-th step or make a peer's k-th data event raise. Every surviving task's output must equal the same render done alone on a fresh environment of the same configuration. Sampling of schedules and programs, not enumeration.",
+        "text": "Seeded search over interleavings: 2-4 real asyncio tasks render generated templates on one shared async environment under a simulated event loop whose every ready-queue choice and gate delay (0..3600 virtual seconds) comes from the seed; some runs cancel a peer at its k-th step or make a peer's k-th data event raise. A quarter of the runs use the micro programs of C29 (few await points, so the seeded ready queue covers their interleavings quickly); generate_async consumers may suspend between chunks. Every surviving task's output must equal the same render done alone on a fresh environment of the same configuration (with the task's own template-level globals). Sampling of schedules and programs, not enumeration.",
         "note": "Trusted: the isolated render of the same code as reference (differential, so a bug that shows identically alone and concurrently is invisible); SimLoop schedules real Tasks faithfully. Known findings KF-C29-1 (state in cached import modules) and KF-C37-1 (the eval context of a cached import module is shared by all tasks; an autoescape block inside a module macro switches it while it runs) are tolerated only for generator-tagged programs and only if a fresh environment per task removes the mismatch.",
         "design": "DESIGN.md §4 C37, §3.4, §9.9",
     },
@@ -39,7 +39,7 @@ CLAIMED = {
     "C29": {
         "level": "exploration",
         "technique": "deterministic simulation: render histories with deep input snapshots + seeded baton-passing thread schedules (sys.monitoring LINE/INSTRUCTION pre-emption) on one shared environment, differential oracle vs isolated render",
-        "text": "Seeded search over (a) render histories on one environment (3-10 renders through every entry point, small template caches so eviction/reload happen, sync and async) with a deep structural snapshot of data, environment globals and template globals after every render, and (b) thread schedules: 2-4 simulated threads rendering on the same environment and the same data objects, pre-empted at source-line boundaries of jinja2/template code (placement biased to cache, loader, module and runtime code) and instruction boundaries in LRUCache, with hot, warm and cold template caches; in a third of the schedule runs one thread's k-th data call raises (the others must be unaffected, nobody may be left waiting: threading.Lock/RLock/Event created by the code under test are simulator primitives, so a wait nobody can satisfy is a detected deadlock). Environment / NativeEnvironment / SandboxedEnvironment. Every render must equal its isolated reference and leave inputs unchanged; a run that does not return within its time limit is the violation no-termination. Sampling, not enumeration; the property text's 8-16 free-running threads are replaced by 2-4 threads with chosen pre-emptions, which reach the same pairwise races reproducibly.",
+        "text": "Seeded search over (a) render histories on one environment (3-10 renders through every entry point, small template caches so eviction/reload happen, sync and async) with a deep structural snapshot of data, environment globals and template globals after every render, and (b) thread schedules: 2-4 simulated threads rendering on the same environment and the same data objects, pre-empted at source-line boundaries of jinja2/template code (placement biased to cache, loader, module and runtime code) and instruction boundaries in LRUCache, with hot, warm and cold template caches; in a third of the schedule runs one thread's k-th data call raises (the others must be unaffected, nobody may be left waiting: threading.Lock/RLock/Event created by the code under test are simulator primitives, so a wait nobody can satisfy is a detected deadlock). Environment / NativeEnvironment / SandboxedEnvironment. A quarter of the runs are micro programs (two one-expression templates using one filter / test / global two ways, or two templates running macros of one module imported without context) for which every step of the serial run inside filter / runtime-helper code is tried as a single pre-emption. Every render must equal its isolated reference and leave inputs unchanged; a run that does not return within its time limit is the violation no-termination. Sampling, not enumeration; the property text's 8-16 free-running threads are replaced by 2-4 threads with chosen pre-emptions, which reach the same pairwise races reproducibly.",
         "note": "Trusted: the isolated render of the same code as reference (differential); GIL atomicity below source-line / bytecode granularity; SimLock = threading.Lock semantics; purity of the generated data callables. References come from pristine interpreters for one run in 64 and for every run after the content of a process-global container of jinja2 was seen to differ from the worker's first reading (a trigger, never compared with an expected value). Known findings KF-C29-1 (state in cached import modules) and KF-C37-1 (shared eval context of a cached import module, thread interleaving only) are tolerated only for generator-tagged programs and only if a fresh Environment per render removes the mismatch.",
         "design": "DESIGN.md §4 C29, §3.3, §9.9, §9.10",
     },
@@ -60,7 +60,7 @@ CLAIMED = {
     "C13": {
         "level": "exploration",
         "technique": "deterministic simulation: seeded histories over differently configured environments / overlays / Template(...) with shrunken lexer cache, executed by 1-3 baton-passed threads (sys.monitoring LINE pre-emption in environment.py, utils.py, lexer construction), differential oracle vs isolated render",
-        "text": "Decides ONLY the second sentence of C13 (creating and using such environments never changes how previously configured environments render). Seeded histories of environment creation, overlays (same/changed options, with/without cache_size), Template(...) construction (more configurations than the spontaneous-environment cache holds), from_string/get_template renders through a shared loader and clear_caches, with the lexer cache shrunk to 1-3 entries so eviction and re-creation happen, run by 1-3 simulated threads with seeded pre-emptions inside the shared-cache code. Every render must equal the isolated render of the same (configuration, source, data) - for Template(...) that is Environment(**options).from_string without a loader, so the constructor path is compared with the environment path. A quarter of the runs also pre-empt inside tokenising (the cached Lexer is shared). Sampling, not enumeration.",
+        "text": "Decides ONLY the second sentence of C13 (creating and using such environments never changes how previously configured environments render). Seeded histories of environment creation, overlays (same/changed options, with/without cache_size), Template(...) construction (more configurations than the spontaneous-environment cache holds), from_string/get_template renders through a shared loader and clear_caches, with the lexer cache shrunk to 1-3 entries so eviction and re-creation happen, run by 1-3 simulated threads with seeded pre-emptions inside the shared-cache code. Every render must equal the isolated render of the same (configuration, source, data) - for Template(...) that is Environment(**options).from_string without a loader, so the constructor path is compared with the environment path. A quarter of the runs also pre-empt inside tokenising (the cached Lexer is shared). One run in eight is a micro run: two threads with two different configurations and one tiny source each, every step of the serial run inside lexer-cache / lexer / tokenising code tried as a single pre-emption, followed by a sequential re-render of both configurations. Sampling of histories; per micro workload the single pre-emptions are enumerated.",
         "note": "NOT decided: the first sentence (equivalent delimiter sets / line statements / overlays render the same text) - a pure metamorphic property of the lexer with no schedule or history in it, not applicable to this technique. Trusted: isolated render of the same code as reference; GIL atomicity below source-line granularity; the lexer-cache capacity knob pokes jinja2.lexer._lexer_cache.capacity (skipped if absent).",
         "design": "DESIGN.md §4 C13, §3.3",
     },
